@@ -139,6 +139,44 @@ static void structure(int slot) {
   }
 }
 
+// records of a database as the implementation's own readers see them (_kvblk_key_peek / _kvblk_value_peek), node by node
+// in slot order: stored key, value length, FNV-1a of the value - compared with what the model reader (KV/Records.v) decodes
+static void records(int slot) {
+  struct iwdb *db = dbs[slot];
+  IWFS_FSM *fsm = &db->iwkv->fsm;
+  uint8_t *mm;
+  struct iwlctx lx = { .db = db, .nlvl = -1 };
+  struct sblk *s;
+  iwrc rc = _sblk_at(&lx, db->addr, 0, &s);
+  if (rc) { printf("%s", rcname(rc)); return; }
+  printf("OK");
+  blkn_t n = s->n[0];
+  _sblk_release(&lx, &s);
+  int guard = 0;
+  while (n && guard++ < 1000000) {
+    rc = _sblk_at(&lx, BLK2ADDR(n), 0, &s);
+    if (rc) { printf(" ERR:%s", rcname(rc)); return; }
+    printf(" |");
+    rc = fsm->acquire_mmap(fsm, 0, &mm, 0);
+    if (rc) { printf(" ERR:%s", rcname(rc)); return; }
+    rc = _sblk_loadkvblk_mm(&lx, s, mm);
+    if (!rc) {
+      for (int i = 0; i < s->pnum; ++i) {
+        uint8_t *k, *v; uint32_t kl, vl;
+        rc = _kvblk_key_peek(s->kvblk, s->pi[i], mm, &k, &kl);
+        if (rc) break;
+        _kvblk_value_peek(s->kvblk, s->pi[i], mm, &v, &vl);
+        uint32_t h = 2166136261u;
+        for (uint32_t j = 0; j < vl; ++j) { h ^= v[j]; h *= 16777619u; }
+        printf("%s", i ? "," : ""); puthex(k, kl); printf(":%u:%u", vl, h);
+      }
+    }
+    fsm->release_mmap(fsm);
+    n = s->n[0];
+    _sblk_release(&lx, &s);
+  }
+}
+
 static void closeall(void) {
   for (int i = 0; i < NCUR; ++i) if (curs[i]) iwkv_cursor_close(&curs[i]);
   for (int i = 0; i < NDB; ++i) dbs[i] = 0;
@@ -392,6 +430,8 @@ int main(int argc, char **argv) {
       free(kb);
     } else if (!strcmp(op, "struct")) {
       structure(atoi(tv[1])); printf("\n");
+    } else if (!strcmp(op, "recs") && n >= 2 && atoi(tv[1]) >= 0 && atoi(tv[1]) < NDB && dbs[atoi(tv[1])]) {
+      records(atoi(tv[1])); printf("\n");
     } else if (!strcmp(op, "fsize")) {
       struct stat st;
       if (stat(path, &st)) printf("ERR\n"); else printf("%lld\n", (long long) st.st_size);
